@@ -16,6 +16,8 @@ HEAP_SCHEMA = {
     "filter": ("obj", "filter"),
     "fleet_entry_time": ("num", "real"),
     "conveyor_exit_time": ("opt", ("num", "real")),
+    "absent:total_interruption_time": ("bool",),
+    "absent:interruption_start_time": ("bool",),
     "fleet_exit_time": ("num", "real"),
     "length": ("num", "real"),
     "conveyor_entry_time": ("num", "real"),
